@@ -24,7 +24,9 @@ const SCALE: i128 = 1_000_000_000; // e is kept in units of 1e-9 ns
 #[derive(Clone, Debug, Serialize, Deserialize, PartialEq)]
 pub enum Outcome {
     /// synchronised report that is valid for the true error at the reply instant
-    SyncValid { slack_ns: i64, split: (u8, u8), leap: u16, interval_log2: i8, age_frac: u16, from_phc: bool },
+    /// (valid_frac: the instant at which chronyd evaluated the report, as a fraction /255 of the
+    /// way from the arrival of the request to the departure of the reply)
+    SyncValid { slack_ns: i64, split: (u8, u8), leap: u16, interval_log2: i8, age_frac: u16, from_phc: bool, valid_frac: u8 },
     Unsync,
     Stale,
     Unusable { leap: u16 },
@@ -242,7 +244,8 @@ impl Driver {
     }
 
     /// Build the scripted chronyd answer for a poll whose reply is generated at `m_q`.
-    fn answer_for(&mut self, outcome: &Outcome, m_q: i128) -> Answer {
+    fn answer_for(&mut self, outcome: &Outcome, m_query: i128, latency: i128) -> Answer {
+        let m_q = m_query + latency;
         let real_q = REAL_BASE + m_q;
         let dflt = |leap: u16, age: i128| WireReport {
             ref_id: 1,
@@ -254,8 +257,10 @@ impl Driver {
             interval: WireFloat::pow2(4),
         };
         match outcome {
-            Outcome::SyncValid { slack_ns, split, leap, interval_log2, age_frac, from_phc } => {
-                let e = self.case.err_scaled(m_q);
+            Outcome::SyncValid { slack_ns, split, leap, interval_log2, age_frac, from_phc, valid_frac } => {
+                // the report bounds the error at the instant chronyd evaluated it
+                let m_valid = m_query + latency * *valid_frac as i128 / 255;
+                let e = self.case.err_scaled(m_valid);
                 let need = (e.abs() + SCALE - 1) / SCALE; // ceil |e| in ns
                 let total = need + *slack_ns as i128;
                 // split total into |offset| + dispersion + delay/2
@@ -333,8 +338,7 @@ impl Driver {
                         continue;
                     }
                     self.vc.set(self.now, REAL_BASE + self.now);
-                    let m_q = self.now + latency_ns as i128;
-                    let answer = self.answer_for(&outcome, m_q);
+                    let answer = self.answer_for(&outcome, self.now, latency_ns as i128);
                     let from_phc = matches!(&answer, Answer::Tracking(r) if r.ref_id == PHC0);
                     let _ = from_phc;
                     let as_of = self.now;
@@ -551,9 +555,10 @@ fn outcome_strategy() -> BoxedStrategy<Outcome> {
             0u16..3,
             0i8..=7,
             any::<u16>(),
-            prop::bool::weighted(0.3)
+            prop::bool::weighted(0.3),
+            prop_oneof![Just(0u8), Just(255u8), any::<u8>()]
         )
-            .prop_map(|(slack_ns, split, leap, interval_log2, age_frac, from_phc)| Outcome::SyncValid { slack_ns, split, leap, interval_log2, age_frac, from_phc }),
+            .prop_map(|(slack_ns, split, leap, interval_log2, age_frac, from_phc, valid_frac)| Outcome::SyncValid { slack_ns, split, leap, interval_log2, age_frac, from_phc, valid_frac }),
         2 => Just(Outcome::Unsync),
         1 => Just(Outcome::Stale),
         1 => (4u16..12).prop_map(|leap| Outcome::Unusable { leap }),
@@ -656,7 +661,7 @@ impl Property for C01 {
     fn assumptions() -> Vec<String> {
         vec![
             "the physical premises are instantiated as: realtime clock = monotonic + constant, clock error piecewise linear with |slope| <= configured drift per monotonic second, no steps; chronyd's slewing between reports is part of 'the report was valid'".into(),
-            "a SyncValid report is valid at the instant the reply is generated (as_of + latency)".into(),
+            "a SyncValid report bounds the clock error at a generated instant between the arrival of the request at chronyd and the departure of the reply".into(),
             "tolerance 1 ns + half-width * 2^-40 for the two f64 conversions".into(),
         ]
     }
